@@ -640,6 +640,7 @@ def run(ctx):
     from . import C14 as _C14
     ctx.guard("window", "double_scalarmult_vartime", lambda: _C14.check_window(ctx, P))
     ctx.guard("window", "scan-start", lambda: _C14.check_scan(ctx, P))
+    ctx.guard("bits-all", "scalar64", lambda: _C14.check_bits_all(ctx, P, "scalar64"))
     from . import C13
     ctx.guard("table", "scalar64", lambda: C13.check_tables(ctx, P))
     P2 = ctx.prog("K2")
@@ -649,6 +650,10 @@ def run(ctx):
     ctx.guard("fe-bounds", "fe64", lambda: febounds.check_fe64(ctx, P, "K0"))
     ctx.guard("fe-bounds", "fe32", lambda: febounds.check_fe32(ctx, P2, "K2"))
     ctx.guard("limbpoly", "fe32", lambda: check_field_ops(ctx, P2, "fe32", "K2"))
+    from . import sc32
+    ctx.guard("decode32", "fe32::from_bytes", lambda: sc32.check_decode32(ctx, P2))
+    ctx.guard("sc", "scalar32::reduce", lambda: sc32.check_scalar32(ctx, P2, "reduce"))
+    ctx.guard("sc", "scalar32::muladd", lambda: sc32.check_scalar32(ctx, P2, "muladd"))
     if ctx.tier == "thorough":
         ctx.guard("exponent", "fe32", lambda: C12.check_exponents(ctx, P2, "K2", "fe32"))
         ctx.guard("grouplaw", "ge/K2", lambda: check_group_law(ctx, P2))
